@@ -22,7 +22,12 @@ Inductive case :=
 | CRangeInit (x : Q) (act' : bool) (hi' lo' : Q)                    (* Range::init *)
 | CMean (pm x c r : Q)                         (* welford_online::calculate_mean *)
 | CRecM (m pm x nm r : Q)                      (* welford_online::calculate_recurrence_relation_m *)
-| CPopVar (m c r : Q).                         (* welford_online::calculate_population_variance *)
+| CPopVar (m c r : Q)                          (* welford_online::calculate_population_variance *)
+| CPersist (points : list N) (changed : bool) (c : case).
+    (* the history of [c] with persist/restore steps inserted after the listed step numbers: the
+       summary is serialised with serde_json, deserialised and the history continues on the
+       restored value.  The model treats such a step as a no-op (Model/Stats.v [ds_step]);
+       [changed] = the harness saw a restored value different from the original *)
 
 (* ---- tolerance ---------------------------------------------------------------------------------- *)
 
@@ -111,7 +116,7 @@ Fixpoint is_perm_b (l1 l2 : list Q) : bool :=
 Definition range_matches (r : range) (act : bool) (hi lo : Q) : bool :=
   Bool.eqb (r_act r) act && Qeq_bool (uq (r_high r)) hi && Qeq_bool (uq (r_low r)) lo.
 
-Definition corr_b (c : case) : bool :=
+Fixpoint corr_b (c : case) : bool :=
   match c with
   | CSeq vals o0 os =>
       obs_matches 0 0 ds_default o0 && corr_run (scale1 vals) (scale2 vals) ds_default vals os
@@ -134,6 +139,7 @@ Definition corr_b (c : case) : bool :=
       near (Qabs' m + maxabs [pm; x; nm] * maxabs [pm; x; nm])
            (uq (calc_m (qc m) (qc pm) (qc x) (qc nm))) r
   | CPopVar m c r => near m (uq (calc_pop_var (qc m) (qc c))) r
+  | CPersist _ changed c' => negb changed && corr_b c'
   end.
 
 (* ---- the oracle: statistics of the whole dataset at once ------------------------------------------------ *)
@@ -179,7 +185,7 @@ Definition same_summary (sc1 sc2 scv : Q) (a b : obs) : bool :=
   near2 sc1 (o_mean a) (o_mean b) && near2 sc2 (o_m a) (o_m b) && near2 sc2 (o_var a) (o_var b) &&
   near2 scv (o_sd a * o_sd a) (o_sd b * o_sd b).
 
-Definition prop_b (c : case) : bool :=
+Fixpoint prop_b (c : case) : bool :=
   match c with
   | CSeq vals o0 os => empty_ok o0 && prop_run (scale1 vals) (scale2 vals) [] (map qc vals) os
   | CPerms base finals =>
@@ -205,6 +211,7 @@ Definition prop_b (c : case) : bool :=
       if Qle_bool 1 c then near (maxabs [pm; x]) ((pm * (c - 1) + x) / c) r else true
   | CPopVar m c r => if Qle_bool 1 c then near m (m / c) r else true
   | CStep _ _ _ | CRecM _ _ _ _ _ => true     (* no independent statement: model agreement only *)
+  | CPersist _ changed c' => negb changed && prop_b c'   (* persist/restore must be the identity *)
   end.
 
 Definition judge (c : case) : N := judge_code (corr_b c) (prop_b c) 0.
